@@ -54,6 +54,8 @@ def descriptor(rec, k):
         "stale_name_operand": "stale" in o["fl"],
         "class_scope_skipped": "skipcls" in o["fl"],
         "class_bound_name_global_lookup": "clsname" in o["fl"],
+        "minmax_arg_order_observable": "minmax" in o["fl"],
+        "literal_binop_raises": "constop" in o["fl"],
         "has_class": "class" in tags,
         "has_closure": any(t.startswith("def:h") or t == "lambda" for t in tags),
     }
@@ -89,6 +91,14 @@ def compare(s, got, ref):
     if s["g"] != got["g"]:
         out.append("global")
     return out
+
+
+def cy_error_class(msg):
+    if re.search(r"need more than \d+ values? to unpack|too many values to unpack", msg):
+        return "unpack-count"
+    if re.search(r"Index -?\d+ out of bounds", msg):
+        return "index-out-of-bounds"
+    return "other"
 
 
 def make_modules(recs, prefix):
@@ -290,11 +300,14 @@ def run(tier, seed):
             pid = r["pid"]
             if pid in m["dropped"]:
                 stage, msg = m["dropped"][pid]
-                oc = "invalid-c" if stage == "cc" else "cython-error"
+                oc = "invalid-c" if stage == "cc" else "cython-error:" + cy_error_class(msg)
                 classes[oc] += 1
                 n_dropped += 1
                 desc = descriptor(r, 0)
-                desc.update({"expect": "compiles", "site": "", "expect_type": ""})
+                desc.update({"expect": "compiles", "site": "", "expect_type": "", "stale_name_operand": False,
+                             "class_scope_skipped": False, "class_bound_name_global_lookup": False,
+                             "minmax_arg_order_observable": False, "literal_binop_raises": False})
+                desc.update(lp.static_features(r["prog"]))
                 rep.disagree(desc, oc, {"source": r["source"], "stage": stage, "message": msg})
                 continue
             got = resC.get(pid)
